@@ -65,6 +65,11 @@ type Server struct {
 
 	// elecMu protects the curElecID and curMaster values.
 	elecMu sync.RWMutex
+	// opMu makes the application of one AFT operation atomic with respect to elections:
+	// doModify holds it for reading while an operation is judged against the current
+	// election and applied to the RIB, runElection holds it for writing while the primary
+	// changes and the previous primary's pending operations are cancelled.
+	opMu sync.RWMutex
 	// curElecID stores the current electionID for cases where the server is
 	// operating in SINGLE_PRIMARY mode.
 	curElecID *spb.Uint128
@@ -781,6 +786,11 @@ func (s *Server) runElection(id string, elecID *spb.Uint128) (*spb.ModifyRespons
 		return nil, status.Newf(codes.Internal, "cannot store election ID %s for client %s", elecID, id).Err()
 	}
 
+	// An operation of the current primary that is being applied - including the retry of
+	// its pending operations - completes before the primary can change: its results belong
+	// to its own stream, and it must not pick up operations of the new primary.
+	s.opMu.Lock()
+	defer s.opMu.Unlock()
 	// The election result is written below, so the write lock is required.
 	s.elecMu.Lock()
 	defer s.elecMu.Unlock()
@@ -880,7 +890,14 @@ func (s *Server) doModify(cid string, ops []*spb.AFTOperation, resCh chan *spb.M
 		// for ALL_PRIMARY this situation will need to handled likely by creating
 		// some form of lock on each transaction as it is attempted, or building
 		// a more intelligent RIB structure to track missing dependencies.
+		// Judge the operation against the election as it is now (not as it was when the
+		// request arrived) and keep elections out until it has been applied.
+		s.opMu.RLock()
+		elec = s.getElection()
+		elec.clientLatest = cs.lastElecID
+		elec.client = cid
 		res, err := modifyEntry(s.masterRIB, ni, o, cs.params.FIBAck, elec)
+		s.opMu.RUnlock()
 		switch {
 		case err != nil:
 			errCh <- err
